@@ -7,7 +7,13 @@ each; every call is recorded with the full observed state before and after and t
 new change events.  TLC evaluates Database!Exec (spec/Database.tla over Query, Update,
 SortDistinct, Projection) on the observed pre-state of every call and compares the
 result (counts, ids, documents, error-or-success), the complete post-state of every
-collection (documents in natural order, index definitions) and the change events."""
+collection (documents in natural order, index definitions) and the change events.
+spec -> code: TLC enumerates every transition (reachable state, call) of the bounded
+model MCDatabase (GenDatabase.tla: depth 2 quick / 3 thorough over 13 documents, 4
+filters, 4 updates, a unique index, drops) with the expected result and post-state;
+each is replayed on a fresh real engine (pre-state installed through the API) and
+compared.  MCDatabase itself checks Unique, IdIndexAlways, FailedUnchanged, ReplayHolds
+and NaturalOrder in every reachable state of the model."""
 import os
 
 import vcheck as V
@@ -17,13 +23,45 @@ import dbtrace
 def run(tier, replay):
     c = V.Check("C01", tier, "model_checking")
     work = V.scratch()
-    bins = V.build(["dbt"], work)
+    bins = V.build(["dbt", "strtab"], work)
     nontrivial = set()
     modes = [("kth", c.seed, []), ("uniq", c.seed, []), ("oplog", c.seed, []), ("index", c.seed, [])]
     for i in range(1 if tier == "quick" else 8):
         modes.append(("hist", c.seed * 1000 + i, [120, 30] if tier == "quick" else [300, 40]))
     nc = 30 if tier == "quick" else 40
     dbtrace.run_modes(c, "C01", bins, work, modes, nontrivial)
+    # ---- spec -> code: every transition of the bounded model replayed on a fresh real engine -------------
+    import json
+    d = os.path.join(work, "gen")
+    os.makedirs(d)
+    V.run([bins["strtab"], d, "d.c1", "a", "a_1", "d", "c1"])
+    V.stage_spec(d, V.PURE_SPECS + ["Database.tla", "MCDatabase.tla", "MCDatabase.cfg", "GenDatabase.tla", "GenDatabase.cfg"])
+    json.dump({"big": tier == "thorough", "depth": 2 if tier == "quick" else 3}, open(os.path.join(d, "mcparams.json"), "w"))
+    r = V.tlc(d, "GenDatabase.tla", cfg="GenDatabase.cfg", timeout=3000)
+    c.add_tlc(r)
+    if r.violated:
+        raise V.Inconclusive("GenDatabase stopped: %s" % r.violated)
+    nsteps = 0
+    with open(os.path.join(d, "steps.ndjson"), "w") as f:
+        for line in r.output.splitlines():
+            if line.startswith('<<"STEP", "'):
+                f.write(line[len('<<"STEP", "'):-3].replace('\\"', '"') + "\n")
+                nsteps += 1
+    if nsteps == 0:
+        raise V.Inconclusive("GenDatabase emitted no transitions")
+    summary, recs = dbtrace.record(c, bins["dbt"], "replay", d, c.seed, [os.path.join(d, "steps.ndjson")])
+    for rec in recs:
+        if rec.get("kind") == "harness":
+            raise V.Inconclusive("replayer: %s" % rec.get("what"))
+        if rec.get("kind") == "replay":
+            c.violation("replay:%s:%s" % (rec.get("op"), rec["what"][:50]), "specification behaviour replayed on the real engine: %s; call %s %s on the state %s" % (
+                rec["what"], rec.get("op"), json.dumps(rec.get("a"))[:400], json.dumps(rec.get("pre"))[:600]), rec)
+    c.cov["model_transitions_replayed_on_impl"] = nsteps
+    # ---- the bounded model itself ------------------------------------------------------------------------
+    r = V.tlc(d, "MCDatabase.tla", cfg="MCDatabase.cfg", timeout=3000)
+    c.add_tlc(r)
+    if r.violated:
+        raise V.Inconclusive("MCDatabase: %s violated on the model" % r.violated)
     c.cov["distinct_nontrivial"] = len(nontrivial)
     c.cov["evaluations"] = c.cov.get("calls_validated", 0)
     c.cov["rule"] = ("seeded histories of %d calls over 3 namespaces with collision-rich pools (ids and values equal across numeric kinds, arrays sharing elements, "
